@@ -155,8 +155,25 @@ def stepReg (st : DriverState) (op : String) (j : Json) : DriverState × Json :=
     | _, _ => (st, badJ "factor: src/dst")
   | "convert" =>
     match fRat j "x", fUC j "src", fUC j "dst" with
-    | some x, some s, some d => (st, exceptJ ratJ (R.convert x s d ((fBool j "auto").getD false)))
+    | some x, some s, some d =>
+      if (fBool j "spelled").getD false then
+        -- canonicalise the spellings first, as `parse_units` does
+        let asDelta := (fBool j "as_delta").getD false
+        match R.parseUnitsContainer s asDelta (fBool j "cs") with
+        | .error e => (st, errJ e)
+        | .ok (s', R1) =>
+          match R1.parseUnitsContainer d asDelta (fBool j "cs") with
+          | .error e => (st, errJ e)
+          | .ok (d', R2) => (st, exceptJ ratJ (R2.convert x s' d' ((fBool j "auto").getD false)))
+      else (st, exceptJ ratJ (R.convert x s d ((fBool j "auto").getD false)))
     | _, _, _ => (st, badJ "convert: x/src/dst")
+  | "parse_units" =>
+    match fUC j "u" with
+    | some u =>
+      match R.parseUnitsContainer u ((fBool j "as_delta").getD true) (fBool j "cs") with
+      | .ok (r, R') => (if (fBool j "keep").getD false then { st with reg := R' } else st, okJ (ucJ r false))
+      | .error e => (st, errJ e)
+    | none => (st, badJ "parse_units: u")
   | "parse_unit_name" =>
     match fStr j "s" with
     | some s => (st, okJ (tripletsJ (R.parseUnitName s (fBool j "cs"))))
